@@ -21,6 +21,8 @@ func init() {
 			"yield granularity is one storage call: interference that needs a context switch at a point that is not a storage call and leaves no state behind at the next one is not reachable",
 			"a data race confined to code between two storage calls and masked by a sync.Pool edge on every run is not visible",
 			"knobs (PlanBatchSize, EnableFieldCache) are fixed before the clients start",
+			"the library executes a statement on the calling goroutine only (true today: it starts no goroutine); storage calls issued by library-internal goroutines would not be under the scheduler's control",
+			"the solo run shares the process with the concurrent run: library state that outlives both is visible only through its effect on the concurrent run",
 		},
 		Real: "real: all of kvql from /repo's working tree, built with -race; client goroutines are real goroutines; simulated: storage engine (copy-on-write, race-invisible), scheduler (decides who runs at every storage call), callers",
 		NCases: func(tier string) int {
